@@ -827,7 +827,53 @@ def rule_r6(ctx):
                           construct=f"{short(m.node)[:70]} => {short(c.node)[:70]}")
 
 
+_MUT_CTORS = ("list", "dict", "set", "collections.Counter", "Counter", "collections.defaultdict", "defaultdict", "collections.OrderedDict",
+              "OrderedDict", "collections.deque", "deque", "bytearray")
+
+
+def rule_per_instance_state(ctx):
+    """Bookkeeping containers belong to one object: no class of the IR core declares a mutable container at class level
+    without binding a fresh one per instance in __init__ - a class-level Counter/dict/list is one object shared by every
+    instance (all graphs' inputs and outputs would count their references in the same table)."""
+    n = 0
+    for mn in ("onnx_ir._core", "onnx_ir._graph_containers", "onnx_ir._linked_list", "onnx_ir._name_authority", "onnx_ir._multi_device"):
+        m = ctx.repo.modules.get(mn)
+        if m is None:
+            continue
+        for c in m.classes.values():
+            n += 1
+            bad = None
+            for st in c.node.body:
+                if not (isinstance(st, (ast.Assign, ast.AnnAssign)) and getattr(st, "value", None) is not None):
+                    continue
+                v = st.value
+                mutable = isinstance(v, (ast.List, ast.Dict, ast.Set, ast.ListComp, ast.DictComp, ast.SetComp)) or (
+                    isinstance(v, ast.Call) and (dotted_of(v.func) or "") in _MUT_CTORS)
+                if not mutable:
+                    continue
+                for t in st.targets if isinstance(st, ast.Assign) else [st.target]:
+                    if not isinstance(t, ast.Name) or t.id.startswith("__"):
+                        continue
+                    init = c.methods.get("__init__")
+                    rebound = init is not None and any(
+                        isinstance(a, (ast.Assign, ast.AnnAssign)) and getattr(a, "value", None) is not None and any(
+                            isinstance(tt, ast.Attribute) and tt.attr == t.id and norm(tt.value) == "self" for tt in (a.targets if isinstance(a, ast.Assign) else [a.target]))
+                        for a in own_nodes(init.node))
+                    family = [c] + [k for k in ctx.repo.subclasses(c) if not k.external]
+                    used = any(isinstance(x, ast.Attribute) and x.attr == t.id and norm(x.value) == "self"
+                               for k in family for f in k.methods.values() for x in own_nodes(f.node))
+                    if used and not rebound:
+                        bad = st
+            ctx.check("R2", f"{c.name}: no mutable container shared at class level", bad is None, c, bad if bad is not None else c.node,
+                      f"`{norm(bad) if bad is not None else ''}` creates ONE container for all instances of {c.name} (and its subclasses) and no __init__ binds a "
+                      "fresh one: per-object bookkeeping (reference counts, registries) is mixed up between unrelated objects",
+                      how="class-body assignments of list/dict/set/Counter/… used through self and not re-bound in __init__", nontrivial=False,
+                      construct=f"shared class-level container in {c.name}")
+    ctx.require(n >= 30, f"only {n} classes examined for class-level mutable state")
+
+
 def run(ctx):
+    rule_per_instance_state(ctx)
     rule_r6(ctx)
     from . import c11
 
